@@ -251,3 +251,38 @@ def resign_variant(rng, tx):
         ins.append((txid, vout, b"".join(new_ops), seq))
     raw = ser_tx(tx["version"], ins, tx["outs"], tx["locktime"], None)
     return raw
+
+
+def gen_sized_tx(rng, total_len=None, unsigned_len=None):
+    """a transaction (one or more inputs: OP_0, a 72-byte signature push, a redeem-script
+    push) whose serialised length - or whose length once the signatures are cleared - is
+    exactly the given number of bytes: sizes just around 2^16, 2^24 ... are where a length
+    field, a buffer or a made-up limit would show"""
+    want = total_len if total_len is not None else unsigned_len
+    nin = max(1, want // 40000) if want < 200000 else 1
+
+    def build(ns):
+        ins, kinds, opsl = [], [], []
+        for n in ns:
+            ops = [b"\x00", b"\x48" + bytes([0x30]) + rng.randbytes(71),
+                   minimal_push(rng.randbytes(n))]
+            ins.append((rng.randbytes(32), 0, b"".join(ops), 0xffffffff))
+            kinds.append(["op0", "direct", "redeem"])
+            opsl.append(ops)
+        outs = [(1000, rng.randbytes(25))]
+        raw = ser_tx(2, ins, outs, 0)
+        ulen = len(ser_tx(2, [(a, b, b"\x00\x00" + ops[-1], d)
+                              for (a, b, c, d), ops in zip(ins, opsl)], outs, 0))
+        return raw, ins, outs, kinds, opsl, ulen
+    ns = [want // nin] * nin
+    for _ in range(12):
+        raw, ins, outs, kinds, opsl, ulen = build(ns)
+        have = len(raw) if total_len is not None else ulen
+        if have == want:
+            return {"raw": raw, "ins": ins, "outs": outs, "version": 2, "locktime": 0,
+                    "kinds": kinds, "ops": opsl, "witness": False,
+                    "edges": ["size-%d" % want], "unsigned_len": ulen}
+        ns[-1] += want - have
+        if ns[-1] < 80:
+            return None
+    return None
